@@ -241,6 +241,7 @@ def build(entry, ch, acc, max_faults=4, shapes=None, flavor='plain', avoid='~*:^
 def build_mixed(ch, acc, with_ack_groups=True, **kw):
     """One interchange whose 2..4 functional groups come from two or three maps of one version (acknowledgement groups
     included), each part built - and damaged - on its own by build().  -> (doc, [expectations]) or None"""
+    kw = {k: v for k, v in kw.items() if k != 'shapes'}      # every part is one group of one or two sets
     icvn = ch.choice(['00401', '00401', '00501'])
     pool = c02.mixed_pool(icvn)
     if with_ack_groups:
